@@ -222,6 +222,15 @@ impl<K> RodeoResolver<K> {
     }
 }
 
+#[cfg(lasso_verif)]
+impl<K> RodeoResolver<K> {
+    /// Verification hook (read-only): `(address, capacity, used)` of every storage block
+    #[doc(hidden)]
+    pub fn verif_blocks(&self) -> Vec<(usize, usize, usize)> {
+        self.__arena.verif_blocks()
+    }
+}
+
 unsafe impl<K: Send> Send for RodeoResolver<K> {}
 unsafe impl<K: Sync> Sync for RodeoResolver<K> {}
 
